@@ -111,7 +111,7 @@ def files(run, rng, quick):
     # the same kind of file as another writer may lay it out: members the reader does not know (strings, nested containers,
     # tags) in every map - the skipping code then sits at the cut points too
     extra = []
-    for data, _ in out[:(3 if quick else 10)]:
+    for data, _ in out[:(3 if quick else 5)]:
         try:
             extra.append(cborgen.encode(cborgen.parse(data)[0], rng, 0.0, cborgen.unknown_member))
         except Exception:
@@ -164,7 +164,7 @@ def check(run):
             for d in range(-16, 17):
                 if 0 <= c + d <= len(data):
                     cuts.add(c + d)
-        for _ in range(60 if quick else 2500):
+        for _ in range(60 if quick else 1200):
             cuts.add(rng.randrange(0, len(data) + 1))
         cuts = sorted(cuts)
         for kind in (["s"] if quick else ["s", "f"]):
